@@ -3,8 +3,12 @@ use std::{
     fs::{self, File, OpenOptions},
     io::{self, BufRead, BufReader, BufWriter, Write},
     path::{Path, PathBuf},
-    sync::Mutex,
 };
+
+#[cfg(feature = "verif")]
+use rip_kernel::verif::sync::Mutex;
+#[cfg(not(feature = "verif"))]
+use std::sync::Mutex;
 
 use rip_kernel::{Event, StreamKind};
 
